@@ -412,6 +412,12 @@ class Canon:
 
     def _target_p(self, target, it, name, frame, d, s2):
         """provenance of the loop / comprehension variable `name` bound by `target in it`"""
+        if isinstance(it, ast.Name) and frame is not None and it.id not in frame.binding:
+            from .paths import assigned_names
+            defs = assigned_names(frame.func).get(it.id, [])
+            if len(defs) == 1 and isinstance(defs[0], ast.Assign) and len(defs[0].targets) == 1 and isinstance(
+                    defs[0].targets[0], ast.Name) and isinstance(defs[0].value, ast.Call):
+                it = defs[0].value
         if isinstance(target, ast.Name):
             return _elem_of(self._iter_p(it, frame, d, s2))
         if isinstance(target, ast.Tuple) and len(target.elts) == 2 and isinstance(
@@ -421,6 +427,16 @@ class Canon:
             if target.elts[0].id == name:
                 return 'elem(%s)' % D
             return '%s[elem(%s)]' % (D, D)
+        if isinstance(target, ast.Tuple) and len(target.elts) == 2 and isinstance(it, ast.Call) and isinstance(
+                it.func, ast.Name) and it.func.id in ('sorted', 'list', 'tuple', 'reversed') and it.args and \
+                isinstance(it.args[0], ast.Call) and isinstance(it.args[0].func, ast.Attribute) and \
+                it.args[0].func.attr == 'items' and not it.args[0].args and \
+                all(isinstance(x, ast.Name) for x in target.elts):
+            # a snapshot of D.items() in some order: the pair is (k, D[k])
+            K = '%s[0]' % _elem_of(self.p(it, frame, d, s2))
+            if target.elts[0].id == name:
+                return K
+            return '%s[%s]' % (self.p(it.args[0].func.value, frame, d, s2), K)
         if isinstance(target, ast.Tuple) and isinstance(it, ast.Call) and isinstance(
                 it.func, ast.Name) and it.func.id == 'enumerate' and len(it.args) == 1 and \
                 len(target.elts) == 2 and isinstance(target.elts[1], ast.Name) and \
@@ -1067,6 +1083,11 @@ class Logic:
         functions are expanded `depth` levels."""
         if isinstance(e, ast.UnaryOp) and isinstance(e.op, ast.Not):
             return self.dnf(e.operand, fr, not pol, depth)
+        if isinstance(e, ast.IfExp):
+            # (c and a) or (not c and b)
+            return self.dnf(ast.BoolOp(op=ast.Or(), values=[
+                ast.BoolOp(op=ast.And(), values=[e.test, e.body]),
+                ast.BoolOp(op=ast.And(), values=[ast.UnaryOp(op=ast.Not(), operand=e.test), e.orelse])]), fr, pol, depth)
         if isinstance(e, ast.Call) and depth > 0 and fr is not None:
             r = self.call_dnf(e, fr, pol, depth)
             if r is not None:
@@ -1460,8 +1481,18 @@ def affine(canon, e, fr, env=None, _d=0):
                 return inner
             return Affine({'round(%r)' % inner: 1})
         if e.func.id in ('max', 'min') and len(e.args) == 1 and isinstance(e.args[0], (ast.Tuple, ast.List)) \
-                and len(e.args[0].elts) >= 2:
+                and len(e.args[0].elts) >= 2 and not any(isinstance(x, ast.Starred) for x in e.args[0].elts) \
+                and not e.keywords:
             e = ast.Call(func=e.func, args=list(e.args[0].elts), keywords=[])
+        if e.func.id in ('max', 'min') and len(e.args) == 1 and all(k.arg == 'default' for k in e.keywords):
+            parts = fold_parts(canon, e.args[0], fr, env, d)
+            if parts is not None:
+                dflt = affine(canon, e.keywords[0].value, fr, env, d) if e.keywords else None
+                return fold_term(e.func.id, parts[0], parts[1], dflt)
+        if e.func.id in ('max', 'min') and any(isinstance(a, ast.Starred) for a in e.args) and not e.keywords:
+            parts = fold_parts(canon, ast.List(elts=list(e.args), ctx=ast.Load()), fr, env, d)
+            if parts is not None:
+                return fold_term(e.func.id, parts[0], parts[1], None)
         if e.func.id in ('max', 'min') and len(e.args) >= 2:
             affs = [affine(canon, a, fr, env, d) for a in e.args]
             if all(a.is_const() for a in affs):
@@ -1475,23 +1506,144 @@ def affine(canon, e, fr, env=None, _d=0):
 TERM_INFO = {}
 
 
-def minmax_term(kind, affs):
-    parts = sorted(set(repr(a) for a in affs))
-    if len(parts) == 1:
-        return affs[0]
-    key = '%s(%s)' % (kind, ', '.join(parts))
-    TERM_INFO[key] = (kind, affs)
+FOLD_INFO = {}     # key -> (kind, lits, comps, default)
+
+
+def _single_term(a):
+    if len(a.terms) == 1 and a.const == 0:
+        (k, v), = a.terms.items()
+        if v == 1:
+            return k
+    return None
+
+
+def push_in(a):
+    """max(...) + r  ->  max(... + r)  for the one min/max/fold term (coefficient 1) of `a`;
+    the rest r is moved inside every component."""
+    hits = [k for k, v in a.terms.items() if v == 1 and (k in TERM_INFO or k in FOLD_INFO)]
+    if len(hits) != 1:
+        return a
+    k = hits[0]
+    r = a - Affine({k: 1})
+    if r.is_const() and r.const == 0:
+        return a
+    if any(t in TERM_INFO or t in FOLD_INFO for t in r.terms):
+        return a
+    if k in TERM_INFO:
+        kind, affs = TERM_INFO[k]
+        return minmax_term(kind, [x + r for x in affs])
+    kind, lits, comps, dflt = FOLD_INFO[k]
+    return fold_term(kind, [x + r for x in lits], [(P, b + r) for P, b in comps],
+                     None if dflt is None else dflt + r)
+
+
+def fold_term(kind, lits, comps, dflt):
+    """max / min over literal elements `lits` and comprehension parts `comps` = [(iterable, body)];
+    `dflt` is the default= of an iterable that may be empty (None: none given)."""
+    lits = list({repr(x): x for x in lits}.values())
+    if lits:
+        dflt = None          # never empty
+    if not comps:
+        if not lits:
+            return dflt if dflt is not None else Affine({'%s()' % kind: 1})
+        return minmax_term(kind, lits)
+    key = '%s{%s}' % (kind, '; '.join(
+        sorted(repr(x) for x in lits) + sorted('over %s: %r' % c for c in comps) +
+        (['default %r' % dflt] if dflt is not None else [])))
+    FOLD_INFO[key] = (kind, lits, comps, dflt)
     return Affine({key: 1})
+
+
+def minmax_term(kind, affs):
+    """max(a, b, ...) -- nested terms of the same kind are flattened, a fold among the
+    operands absorbs the others (max(max_over(P; d), d) == max_over(P, floor d))"""
+    flat = []
+    fold = None
+    for a in affs:
+        a = push_in(a)
+        k = _single_term(a)
+        if k is not None and k in TERM_INFO and TERM_INFO[k][0] == kind:
+            flat += TERM_INFO[k][1]
+        elif k is not None and k in FOLD_INFO and FOLD_INFO[k][0] == kind and fold is None:
+            fold = FOLD_INFO[k]
+        else:
+            flat.append(a)
+    if fold is not None:
+        _, lits, comps, dflt = fold
+        if dflt is None or any(repr(dflt) == repr(x) for x in flat):
+            return fold_term(kind, lits + flat, comps, None)
+        flat.append(fold_term(kind, lits, comps, dflt))
+    parts = sorted(set(repr(a) for a in flat))
+    if len(parts) == 1:
+        return flat[0]
+    key = '%s(%s)' % (kind, ', '.join(parts))
+    TERM_INFO[key] = (kind, flat)
+    return Affine({key: 1})
+
+
+def fold_parts(canon, it, fr, env, d=0):
+    """(literal elements, [(iterable string, body Affine)]) of an iterable display:
+    [a, b], [F(x) for x in P], concatenations, list(...)/tuple(...), single-assignment locals."""
+    if d > 30:
+        return None
+    if isinstance(it, ast.Name) and fr is not None and it.id not in fr.binding:
+        from .paths import assigned_names
+        defs = assigned_names(fr.func).get(it.id, [])
+        if len(defs) == 1 and isinstance(defs[0], ast.Assign) and len(defs[0].targets) == 1 and isinstance(
+                defs[0].targets[0], ast.Name):
+            muts = [n for n in walk_no_nested(fr.func.node) if isinstance(n, ast.Attribute) and isinstance(
+                n.value, ast.Name) and n.value.id == it.id and n.attr in MUTATORS]
+            if not muts:
+                return fold_parts(canon, defs[0].value, fr, env, d + 1)
+        return None
+    if isinstance(it, (ast.List, ast.Tuple)):
+        lits, comps = [], []
+        for x in it.elts:
+            if isinstance(x, ast.Starred):
+                sub = fold_parts(canon, x.value, fr, env, d + 1)
+                if sub is None:
+                    return None
+                lits += sub[0]
+                comps += sub[1]
+            else:
+                lits.append(affine(canon, x, fr, env, d + 1))
+        return lits, comps
+    if isinstance(it, (ast.ListComp, ast.GeneratorExp)) and len(it.generators) == 1:
+        g = it.generators[0]
+        P = canon.p(g.iter, fr) if hasattr(canon, 'p') else canon.c(g.iter, fr)
+        if g.ifs:
+            P += ''.join(' if ' + canon.p(c, fr) for c in g.ifs)
+        pc = canon if isinstance(canon, ProvCanon) else _prov_twin(canon)
+        pc._comp_bind(it.generators, fr, d, frozenset())
+        try:
+            body = affine(pc, it.elt, fr, env, d + 1)
+        finally:
+            pc._comp_env.pop()
+        return [], [(P, body)]
+    if isinstance(it, ast.BinOp) and isinstance(it.op, ast.Add):
+        a, b = fold_parts(canon, it.left, fr, env, d + 1), fold_parts(canon, it.right, fr, env, d + 1)
+        if a is None or b is None:
+            return None
+        return a[0] + b[0], a[1] + b[1]
+    if isinstance(it, ast.Call) and isinstance(it.func, ast.Name) and it.func.id in ('list', 'tuple', 'sorted') \
+            and len(it.args) == 1:
+        return fold_parts(canon, it.args[0], fr, env, d + 1)
+    return None
+
+
+_TWINS = {}
+
+
+def _prov_twin(canon):
+    t = _TWINS.get(id(canon))
+    if t is None:
+        t = _TWINS[id(canon)] = ProvCanon(canon.repo)
+    return t
 
 
 def distribute_const(a):
     """max(x, y) + c  ->  max(x + c, y + c)  (single min/max term, coefficient 1)"""
-    if len(a.terms) == 1 and a.const != 0:
-        (k, v), = a.terms.items()
-        if v == 1 and k in TERM_INFO:
-            kind, affs = TERM_INFO[k]
-            return minmax_term(kind, [x + Affine({}, a.const) for x in affs])
-    return a
+    return push_in(a)
 
 
 def affine_cmp(canon, l, op, r, fr, env=None):
